@@ -8,6 +8,10 @@ From NV Require Import Scalar.Ops Model.Common Model.Eval Model.Derivs Gen.Prelu
 Import ListNotations.
 Local Open Scope nat_scope.
 
+Lemma combine_map2 {A B C D} (f : A -> C) (g : B -> D) (a : list A) (b : list B) :
+  combine (map f a) (map g b) = map (fun p => (f (fst p), g (snd p))) (combine a b).
+Proof. revert b; induction a as [|x a IH]; intros [|y b]; simpl; auto. now rewrite IH. Qed.
+
 Section Tie.
 Context {T : Type} (K : ops T).
 
@@ -141,7 +145,7 @@ Proof.
         set (den := osub K (kn K kv (r1 + i + p + 1)) (kn K kv (r1 + i + k))).
         rewrite (gmapM_ok _ (fun ab : option T * option T =>
                    match ab with (Some e1, Some e2) => odiv K (omul K (ofnat K (p + 1 - k)) (osub K e1 e2)) den | _ => o0 K end)).
-        2:{ intros [o1 o2] Hin. rewrite combine_map in Hin. apply in_map_iff in Hin. destruct Hin as ([e1 e2] & Ee & _).
+        2:{ intros [o1 o2] Hin. rewrite combine_map2 in Hin. apply in_map_iff in Hin. destruct Hin as ([e1 e2] & Ee & _).
             injection Ee as <- <-. cbn [py_unopt gbind].
             replace (Z.of_nat r1 + Z.of_nat i + Z.of_nat p + 1)%Z with (Z.of_nat (r1 + i + p + 1)) by lia.
             replace (Z.of_nat r1 + Z.of_nat i + Z.of_nat k)%Z with (Z.of_nat (r1 + i + k)) by lia.
@@ -158,15 +162,31 @@ Proof.
         rewrite (injrow_step' dim (S r) _ i) by (auto; lia). f_equal.
         rewrite (firstn_S_nth _ i []) by lia. f_equal. f_equal.
         (* the new point is entry i of the model's row k *)
-        destruct k as [|k']; [lia|]. unfold rm at 2. cbn [rowm]. fold rm. unfold deriv_row.
-        replace (S k' - 1) with k' in * by lia.
-        rewrite nth_map_seq by lia.
-        unfold pt_at. fold a b. rewrite combine_map, map_map. apply map_ext. intros [e1 e2]. reflexivity. }
+        subst a b den. destruct k as [|k']; [lia|]. replace (S k' - 1) with k' by lia.
+        change (rm (S k')) with (deriv_row K p kv r1 r (S k') (rm k')). unfold deriv_row.
+        rewrite nth_map_seq by lia. unfold pt_at. rewrite combine_map2, map_map. apply map_ext. intros [e1 e2]. reflexivity. }
     cbn [gbind]. eexists. split; [reflexivity|].
     rewrite seq_S, map_app. cbn [map Nat.add]. rewrite <- app_assoc. cbn [app].
     replace (S order - S k) with (order - k) by lia. reflexivity.
-  - cbn [seq map app]. now rewrite Nat.sub_0_r || reflexivity.
+  - cbn [seq map app]. replace (S order - 1) with order by lia. reflexivity.
   - rewrite EF. cbn [gbind]. rewrite HF. replace (S order - (1 + order)) with O by lia. cbn [repeat]. rewrite app_nil_r.
     unfold injPK. rewrite map_map. reflexivity.
 Qed.
 End Tie.
+
+Definition curve_deriv_cpts_tie_R := @curve_deriv_cpts_tie _ Rops.
+Definition curve_deriv_cpts_tie_Q := @curve_deriv_cpts_tie _ Qops.
+
+(* ---- non-vacuity: degree 3, a repeated interior knot, the window rs = (2, 5), two derivatives ---- *)
+Local Open Scope Q_scope.
+Example curve_deriv_cpts_ex :
+  let U := [0; 0; 0; 0; 1#4; 1#2; 1#2; 3#4; 1; 1; 1; 1] in
+  let P := [[0; 0]; [1; 2]; [2; 3]; [4; 3]; [5; 1]; [6; 0]; [7; 2]; [9; 3]] in
+  HelpersB.curve_deriv_cpts Qops 2 3 U P [2%Z; 5%Z] 2 =
+    GOk [[[Some 2; Some 3]; [Some 4; Some 3]; [Some 5; Some 1]; [Some 6; Some 0]];
+         [[Some 12; Some 0]; [Some 6; Some (-12)]; [Some 6; Some (-6)]; [None; None]];
+         [[Some (-48); Some (-96)]; [Some 0; Some 48]; [None; None]; [None; None]]]
+  /\ Derivs.curve_deriv_cpts Qops 3 U P 2 5 2 =
+     [[[2; 3]; [4; 3]; [5; 1]; [6; 0]]; [[12; 0]; [6; -12]; [6; -6]]; [[-48; -96]; [0; 48]]]
+  /\ HelpersB.curve_deriv_cpts Qops 2 3 U P [2%Z; 8%Z] 1 = GErr IndexError.
+Proof. repeat split; vm_compute; reflexivity. Qed.
